@@ -21,7 +21,8 @@ def rand_text(rng):
 
 def rand_dt(rng):
     """microsecond-resolution datetime64 within the TDMS/datetime range"""
-    secs = rng.choice([0, 1, -1, rng.randrange(-2 ** 31, 2 ** 32), rng.randrange(-2082844800 - 10 ** 8, 4 * 10 ** 9)])
+    secs = rng.choice([0, 1, -1, rng.randrange(-2 ** 31, 2 ** 32), rng.randrange(-2082844800 - 10 ** 8, 4 * 10 ** 9),
+                       rng.randrange(-62135596800, 253402300799)])       # whole datetime.datetime range (years 1..9999)
     us = rng.choice([0, 1, 999999, 500000, rng.randrange(10 ** 6), rng.randrange(10 ** 6)])
     return np.datetime64(secs * 10 ** 6 + us, 'us')
 
